@@ -20,7 +20,8 @@ package cipher
 //@   loop 1 invariant sameobj(msg, m) && offof(msg) + len(msg) == offof(m) + len(m) && offof(m) <= offof(msg) && (offof(msg) - offof(m)) % 16 == 0
 //@   loop 1 decreases len(msg)
 //@   assert before call updateBlock#2: forall i :: 0 <= i && i < 16 ==> partialBlock[i] == ite(i < len(msg), msg[i], h.tweak[i - len(msg)])
-//@   assert before call updateBlock#3: forall i :: 0 <= i && i < 16 ==> partialBlock[i] == ite(i < len(msg), h.tweak[16 - len(msg) + i], 0)
+//@   assert before call updateBlock#3: forall i :: 0 <= i && i < len(msg) ==> partialBlock[i] == h.tweak[16 - len(msg) + i]
+//@   assert before call updateBlock#3: forall i :: len(msg) <= i && i < 16 ==> partialBlock[i] == 0
 
 // ---- generic ECB over an abstract block cipher (block size 8 or 16): per block q,
 // dst block q == E_K(src block q) for every length, separate or exactly overlapping buffers
